@@ -23,15 +23,16 @@ Definition log10_sane_R (log10 : num -> num) : Prop :=
               (K <= as_i32 (nfloor (log10 a)) <= K + 1)%Z.
 
 Lemma log10_sane_to_R : forall log10,
-  (forall a k, valid_binary prec emax a = true -> in_decade a k ->
+  (forall a k, valid_binary prec emax a = true -> nsign a = false -> in_decade a k ->
                (k <= as_i32 (nfloor (log10 a)) <= k + 1)%Z) -> log10_sane_R log10.
 Proof.
-  intros log10 HL a K Va Fa HA. apply (HL a K Va). apply in_decade_of_R.
-  rewrite Rabs_pos_eq; [exact HA|]. pose proof (p10_pos K). lra.
+  intros log10 HL a K Va Fa HA. pose proof (p10_pos K) as PK. apply (HL a K Va).
+  - apply RV_pos_nsign. lra.
+  - apply in_decade_of_R. rewrite Rabs_pos_eq; [exact HA|lra].
 Qed.
 
-Theorem display_total_exec : forall log10,
-  (forall a k, valid_binary prec emax a = true -> in_decade a k ->
+Theorem display_total_exec_pos : forall log10,
+  (forall a k, valid_binary prec emax a = true -> nsign a = false -> in_decade a k ->
                (k <= as_i32 (nfloor (log10 a)) <= k + 1)%Z) ->
   forall x, valid_binary prec emax x = true ->
   exists t, format_display_number log10 powi_exec fmt_prec_exec fmt_exp14_exec parse_f64_exec true x = Ok t.
@@ -76,6 +77,29 @@ Qed.
 
 (* ---- summary: under log10_sane the executable model displays EVERY valid double, as a well-formed
         numeral, which for finite non-zero x is less than one unit of the 15th digit away from x ---- *)
+Theorem display_exec_complete_pos : forall log10,
+  (forall a k, valid_binary prec emax a = true -> nsign a = false -> in_decade a k ->
+               (k <= as_i32 (nfloor (log10 a)) <= k + 1)%Z) ->
+  forall x, valid_binary prec emax x = true ->
+  exists t,
+    format_display_number log10 powi_exec fmt_prec_exec fmt_exp14_exec parse_f64_exec true x = Ok t /\
+    wf_numeral t = true /\
+    (Num.is_finite x = true -> neqb x nzero = false ->
+     forall k, in_decade x k -> (Qabs (denote t - num_to_Q x) < Qpower (10 # 1) (k - 14)%Z)%Q).
+Proof.
+  intros log10 HL x V. destruct (display_total_exec_pos log10 HL x V) as (t & Et).
+  exists t. split; [exact Et|]. split.
+  - exact (display_wellformed_exec_pos log10 true HL x t V Et).
+  - intros F NZ. exact (display_accurate_exec_pos log10 HL x t V F NZ Et).
+Qed.
+
+Theorem display_total_exec : forall log10,
+  (forall a k, valid_binary prec emax a = true -> in_decade a k ->
+               (k <= as_i32 (nfloor (log10 a)) <= k + 1)%Z) ->
+  forall x, valid_binary prec emax x = true ->
+  exists t, format_display_number log10 powi_exec fmt_prec_exec fmt_exp14_exec parse_f64_exec true x = Ok t.
+Proof. intros log10 HL. apply display_total_exec_pos. intros a k V _ D. exact (HL a k V D). Qed.
+
 Theorem display_exec_complete : forall log10,
   (forall a k, valid_binary prec emax a = true -> in_decade a k ->
                (k <= as_i32 (nfloor (log10 a)) <= k + 1)%Z) ->
@@ -85,9 +109,4 @@ Theorem display_exec_complete : forall log10,
     wf_numeral t = true /\
     (Num.is_finite x = true -> neqb x nzero = false ->
      forall k, in_decade x k -> (Qabs (denote t - num_to_Q x) < Qpower (10 # 1) (k - 14)%Z)%Q).
-Proof.
-  intros log10 HL x V. destruct (display_total_exec log10 HL x V) as (t & Et).
-  exists t. split; [exact Et|]. split.
-  - exact (display_wellformed_exec log10 true HL x t V Et).
-  - intros F NZ. exact (display_accurate_exec log10 HL x t V F NZ Et).
-Qed.
+Proof. intros log10 HL. apply display_exec_complete_pos. intros a k V _ D. exact (HL a k V D). Qed.
